@@ -23,6 +23,8 @@ func checkC10(ctx *Ctx, r *Report) {
 	c10WalkersReadDefault(ctx, r)
 	c10ConstantFromConcrete(ctx, r)
 	c10OverridesForwarded(ctx, r)
+	c10EnumValueDefaultAgreement(ctx, r)
+	c10PythonMutableDefaults(ctx, r)
 }
 
 func c10DefaultCarried(ctx *Ctx, r *Report) map[*types.Func]bool {
@@ -112,6 +114,13 @@ func c10DefaultCarried(ctx *Ctx, r *Report) map[*types.Func]bool {
 					retObj = objOf(info, id)
 					if init, ok := defs[retObj]; ok && isFreshType(init) {
 						ctor = init
+					} else if ok && retObj != param && namedOf(info.TypeOf(init)) == typeT && derivesFromParam(info, init, param, fd.Body) {
+						// a component of the visited type returned in its place (`T | null` → T): not a copy of the whole
+						if c, isCall := ast.Unparen(init).(*ast.CallExpr); !isCall || !isCopyCall(info, c) {
+							if !isIdentOf(info, init, param) {
+								ctor = init
+							}
+						}
 					}
 				} else if isFreshType(res) {
 					ctor = res
@@ -906,4 +915,141 @@ func c10OverridesForwarded(ctx *Ctx, r *Report) {
 	}
 	r.Count("override maps received by the Go and Python jennies", n)
 	r.Floor("override maps received by the Go and Python jennies", 3)
+}
+
+// ---------------------------------------------------------------------------
+// rules added after the second round of independent seeds
+
+// c10EnumValueDefaultAgreement: in the enum walkers of the front-ends, member values and the enum's default go through the
+// same conversion: if the loop re-types a member value (assignment to the range variable, conversion call) the default must be
+// converted alike — the Go jenny finds the default member with `member.Value == Default`.
+func c10EnumValueDefaultAgreement(ctx *Ctx, r *Report) {
+	n := 0
+	for _, rel := range []string{"internal/jsonschema", "internal/openapi"} {
+		p := ctx.Pkg(rel)
+		if p == nil {
+			continue
+		}
+		info := p.TypesInfo
+		var fd *ast.FuncDecl
+		for _, f := range p.Syntax {
+			for _, d := range f.Decls {
+				if x, ok := d.(*ast.FuncDecl); ok && x.Name.Name == "walkEnum" {
+					fd = x
+				}
+			}
+		}
+		if fd == nil {
+			r.Undecided("anchor lost: %s.walkEnum", rel)
+			continue
+		}
+		n++
+		wrapperOf := func(e ast.Expr) string {
+			if c, ok := ast.Unparen(e).(*ast.CallExpr); ok {
+				return exprString(c.Fun)
+			}
+			return ""
+		}
+		valueWrap, defaultWrap := "?", "?"
+		retyped := ""
+		ast.Inspect(fd.Body, func(m ast.Node) bool {
+			switch x := m.(type) {
+			case *ast.RangeStmt:
+				if id, ok := x.Value.(*ast.Ident); ok {
+					vobj := info.Defs[id]
+					ast.Inspect(x.Body, func(k ast.Node) bool {
+						if as, ok := k.(*ast.AssignStmt); ok && as.Tok == token.ASSIGN {
+							for _, l := range as.Lhs {
+								if isIdentOf(info, l, vobj) {
+									retyped = exprString(as.Rhs[0])
+								}
+							}
+						}
+						return true
+					})
+				}
+			case *ast.KeyValueExpr:
+				if exprString(x.Key) == "Value" {
+					valueWrap = wrapperOf(x.Value)
+				}
+			case *ast.CallExpr:
+				if f := callee(info, x); f != nil && f.Name() == "Default" && f.Pkg() != nil && f.Pkg().Path() == astPkgPath && len(x.Args) == 1 {
+					defaultWrap = wrapperOf(x.Args[0])
+				}
+			}
+			return true
+		})
+		bad := ""
+		if retyped != "" {
+			bad = "member values are re-typed in the loop (`" + retyped + "`) while the default is not"
+		} else if valueWrap != defaultWrap {
+			bad = fmt.Sprintf("member values go through `%s`, the default through `%s`", valueWrap, defaultWrap)
+		}
+		r.Check(bad == "", "siblings/enum-value-default", rel+".walkEnum", fd.Pos(), "member values and the default are converted alike",
+			rel+".walkEnum: "+bad+": the default no longer compares equal to the member it designates, the Go constructor falls back to the first member while Python prints the declared default")
+	}
+	r.Count("enum walkers", n)
+}
+
+// c10PythonMutableDefaults: the Python __init__ generator only writes a default value into the signature for immutable
+// values: a branch that handles arrays / maps / structs with `name: T = <literal>` makes every instance share one object.
+func c10PythonMutableDefaults(ctx *Ctx, r *Report) {
+	p := ctx.Pkg("internal/jennies/python")
+	if p == nil {
+		return
+	}
+	info := p.TypesInfo
+	var fd *ast.FuncDecl
+	for _, f := range p.Syntax {
+		for _, d := range f.Decls {
+			if x, ok := d.(*ast.FuncDecl); ok && x.Name.Name == "generateInitMethod" {
+				fd = x
+			}
+		}
+	}
+	if fd == nil {
+		r.Undecided("anchor lost: python.RawTypes.generateInitMethod")
+		return
+	}
+	parents := parentMap(fd)
+	n := 0
+	ast.Inspect(fd.Body, func(m ast.Node) bool {
+		c, ok := m.(*ast.CallExpr)
+		if !ok || len(c.Args) < 2 {
+			return true
+		}
+		fn := callee(info, c)
+		if fn == nil || fn.FullName() != "fmt.Sprintf" {
+			return true
+		}
+		lit, ok := c.Args[0].(*ast.BasicLit)
+		if !ok || !strings.Contains(lit.Value, ": %s = %s") {
+			return true
+		}
+		n++
+		// the branch it sits in must not be one that selects collections / objects
+		mutable := ""
+		for _, ce := range enclosingConds(parents, c) {
+			cs := exprString(ce.stmt.Cond)
+			if ce.inElse {
+				continue
+			}
+			for _, k := range []string{"IsArray()", "IsMap()", "IsStruct()", "KindArray", "KindMap", "KindStruct", "[]any", "map[string]"} {
+				if strings.Contains(cs, k) {
+					mutable = cs
+				}
+			}
+			if init, ok := ce.stmt.Init.(*ast.AssignStmt); ok {
+				is := exprString(init.Rhs[0])
+				if strings.Contains(is, "[]any") || strings.Contains(is, "map[string]") {
+					mutable = is
+				}
+			}
+		}
+		r.Check(mutable == "", "skeleton/python-immutable-defaults", fmt.Sprintf("python generateInitMethod literal default #%d", n), c.Pos(), "only written for values that are not lists / dicts / objects",
+			"generateInitMethod writes a literal default into the __init__ signature in a branch selected by `"+mutable+"`: Python evaluates it once, so every instance built without that argument shares (and mutates) the same list / dict — the second default-constructed object no longer holds the declared default")
+		return true
+	})
+	r.Count("literal defaults written into Python signatures", n)
+	r.Floor("literal defaults written into Python signatures", 1)
 }
